@@ -50,7 +50,74 @@ DOCUMENTED_LIST_OVERLOADS = {
                                         "shape of b' (documented overload)",
     ("modulo", "(str, list)"): "% with a string and a list is string "
                                "formatting (documented overload)",
+    ("zero_slice", "(ts[0], NUMBER_TYPE)"): "Ẏ slices its list operand "
+                                            "(documented overload any-num)",
+    ("zero_slice", "(NUMBER_TYPE, ts[1])"): "same, operands swapped",
+    ("one_slice", "(ts[0], NUMBER_TYPE)"): "Ż slices its list operand "
+                                           "(documented overload any-num)",
+    ("one_slice", "(NUMBER_TYPE, ts[1])"): "same, operands swapped",
 }
+
+
+REVIEWED_SHORTCUTS: dict = {}
+
+
+def wildcard_keys(fn):
+    """dispatch keys like `(ts[0], str)`: the wildcard position also matches
+    list / LazyList, so that shape is taken away from the vectorise fallback
+    (the repository's own wildcard arms pair the wildcard with a *function*
+    kind, which a documented overload)"""
+    out = []
+    for n in ast.walk(fn):
+        if isinstance(n, ast.Dict) and is_dispatch_dict(n):
+            for k in n.keys:
+                if isinstance(k, ast.Tuple) and any(
+                        isinstance(e, ast.Subscript) and isinstance(
+                            e.value, ast.Name) and e.value.id == "ts"
+                        for e in k.elts):
+                    others = [dotted(e) or "" for e in k.elts
+                              if not isinstance(e, ast.Subscript)]
+                    if not any("FunctionType" in o for o in others):
+                        out.append(ast.unparse(k))
+    return out
+
+
+def shortcuts_before_dispatch(fn):
+    """`if <test on a value parameter>: return ...` statements at the top
+    level of fn, ahead of the statement that contains the vectorise fallback,
+    whose test does not establish a scalar kind for the parameter"""
+    from ..lazy import guard_says_not_lazy
+    params = value_params(fn)
+    out = []
+    for st in fn.body:
+        if any(isinstance(c, ast.Call) and dotted(c.func) == "vectorise"
+               for c in ast.walk(st)) and not isinstance(st, ast.If):
+            break
+        if not isinstance(st, ast.If):
+            continue
+        if any(isinstance(c, ast.Call) and dotted(c.func) == "vectorise"
+               for c in ast.walk(st)):
+            continue  # the if itself is (part of) the dispatch
+        rets = [r for r in ast.walk(st) if isinstance(r, ast.Return)]
+        if not rets:
+            continue
+        names = {m.id for m in ast.walk(st.test) if isinstance(m, ast.Name)}
+        touched = [p_ for p_ in params if p_ in names]
+        if not touched:
+            continue
+        if isinstance(st.test, ast.Compare) and isinstance(
+                st.test.ops[0], (ast.Is, ast.IsNot)) and isinstance(
+                st.test.comparators[0], ast.Constant) \
+                and st.test.comparators[0].value is None:
+            continue  # an optional parameter left out, not a value test
+        kinded = "vy_type" in ast.unparse(st.test) or "isinstance" in \
+            ast.unparse(st.test) or "type(" in ast.unparse(st.test) or any(
+            guard_says_not_lazy(st.test, p_, i) is True
+            for i, p_ in enumerate(params))
+        if kinded or "ts" in names:
+            continue
+        out.append((st, f"if {ast.unparse(st.test)[:40]}: return"))
+    return out
 
 
 def value_params(fn):
@@ -293,9 +360,13 @@ def check(chk, repo, tier):
                 t_ = ast.parse(v[0])
             except SyntaxError:
                 continue
-            fn_of[key] = [dotted(c.func) for c in ast.walk(t_)
-                          if isinstance(c, ast.Call)
-                          and (dotted(c.func) or "") in mod.functions]
+            if isinstance(vnode, ast.Call) and dotted(vnode.func) == \
+                    "process_element" and vnode.args and isinstance(
+                    vnode.args[0], ast.Name) \
+                    and vnode.args[0].id in mod.functions:
+                fn_of[key] = [vnode.args[0].id]  # the element's function
+            else:
+                fn_of[key] = []
     n_doc = 0
     for rec in read_elements_yaml(repo):
         if str(rec.get("vectorise")).lower() != "true":
@@ -305,6 +376,18 @@ def check(chk, repo, tier):
             keys = [k for k in list_keys_of(mod.functions[fname])
                     if k.replace(" ", "") != "list"
                     and (fname, k) not in DOCUMENTED_LIST_OVERLOADS]
+            keys += [k for k in wildcard_keys(mod.functions[fname])
+                     if (fname, k) not in DOCUMENTED_LIST_OVERLOADS]
+            for sc in shortcuts_before_dispatch(mod.functions[fname]):
+                chk.ob("C08.no-shortcut-before-dispatch",
+                       f"yaml[{rec['key']!r}] -> {fname}:{sc[1]}",
+                       (fname, sc[1]) in REVIEWED_SHORTCUTS,
+                       f"`{sc[1]}` returns before the kind dispatch of the "
+                       f"documented-vectorising element {rec['key']!r} and is "
+                       "not restricted to scalars: a list (an empty one, two "
+                       "equal ones ...) takes this exit instead of being "
+                       "handled item by item", EF, sc[0].lineno,
+                       witness=f"5 ⟨⟩ {rec['key']} / two equal lists")
             chk.ob("C08.documented-vectorising-claims-no-list-shape",
                    f"yaml[{rec['key']!r}] -> {fname}", not keys,
                    f"the documentation marks {rec['key']!r} as vectorising, "
